@@ -5,6 +5,7 @@ import (
 	"errors"
 	"fmt"
 	"io"
+	"os"
 	"os/exec"
 	"strings"
 	"time"
@@ -170,6 +171,12 @@ var c03Progs = []*Program{
 	{Rules: []*Rule{
 		{Kind: "BEGINFILE", Body: Blk(Ex(&Postfix{"++", V("n")}), Pr(S("value"), V("n")))},
 		{Kind: "END", Body: Blk(Pr(S("end"), V("n")))},
+	}},
+	// every root is kept: a later value must not change what an earlier one was
+	{Rules: []*Rule{
+		{Kind: "BEGIN", Body: Blk(Ex(Asg("=", V("keep"), Arr_())))},
+		{Kind: "BEGINFILE", Body: Blk(Ex(CallE(Mem(V("keep"), "push"), V("$"))), Pr(S("kept"), CallE(Mem(V("keep"), "length"))))},
+		{Kind: "END", Body: Blk(Pr(V("keep")))},
 	}},
 }
 
@@ -838,7 +845,29 @@ func c03PipeCheck(c *fw.Ctx, ps c03Pipe) *fw.Violation {
 	return nil
 }
 
-var c03Values = []string{`1`, `"a"`, `[]`, `[1,2]`, `{"a":1}`, `null`, `true`, `-0.5e1`}
+// c03ProcFile: a named input whose size the file system reports as 0 although it has content is read to its real end.
+func c03ProcFile(c *fw.Ctx) *fw.Violation {
+	const pp = "/proc/sys/kernel/pid_max"
+	b, err := os.ReadFile(pp)
+	if err != nil {
+		c.Note("no /proc file to read here", 1)
+		return nil
+	}
+	cmd := exec.Command(fw.JqawkBin(), `BEGINFILE { print "value", $, $file } END { print "end" }`, pp)
+	so, se, exit, timedOut := runChild(c, cmd, "", 60*time.Second)
+	c.Evals++
+	c.Traces++
+	if timedOut {
+		return nil
+	}
+	want := "value " + strings.TrimSpace(string(b)) + " " + pp + "\nend\n"
+	if exit != 0 || so != want {
+		return &fw.Violation{What: "a named input that reports size 0 but has content was not read to its end", Detail: map[string]any{"file": pp, "content": string(b), "want_stdout": want, "stdout": so, "stderr": se, "exit": exit}}
+	}
+	return nil
+}
+
+var c03Values = []string{`1`, `"a"`, `[]`, `[1,2]`, `{"a":1}`, `null`, `true`, `-0.5e1`, `[3]`}
 
 func c03NeedsSep(prev, next string) bool {
 	isNum := func(s string) bool { return s[0] == '-' || (s[0] >= '0' && s[0] <= '9') }
@@ -878,6 +907,9 @@ func c03Stream(c *fw.Ctx, data string, thorough bool) {
 		bound = 3
 	}
 	for prog := range c03Progs {
+		if prog == 2 && strings.Count(data, "[") < 2 {
+			continue // the keeping program is about several array roots
+		}
 		ex := c03Model(prog, data)
 		if ex.status != StreamClean {
 			panic("c03: generated stream is not clean: " + data)
@@ -956,7 +988,7 @@ var c03Fixed = []struct{ first, second string }{
 func init() {
 	fw.Register(&fw.Prop{
 		ID: "C03",
-		Rule: "value streams: all sequences of <= 3 values over {1, \"a\", [], [1,2], {\"a\":1}, null, true, -0.5e1} x separators {none where the grammar allows, blank, newline} x trailing newline, run with two programs (per-value output; a counter across values); " +
+		Rule: "value streams: all sequences of <= 3 values over {1, \"a\", [], [1,2], {\"a\":1}, null, true, -0.5e1, [3]} x separators {none where the grammar allows, blank, newline} x trailing newline, run with three programs (per-value output; a counter across values; every root kept in an array that END prints); " +
 			"for each stream: every chunking when it is short, otherwise every schedule with <= k deviating Read answers (1 byte, up to each value boundary, boundary+1, (0,nil), last bytes together with EOF) plus the all-one-byte schedule; every truncation point; a sticky read error at every position (alone and together with the last bytes); " +
 			"every single-byte replacement and insertion from 10 bytes at every position; plus fixed faulty streams; SEVERAL INPUTS: 5 first inputs x all later inputs of <= 2 values, both readers explored, every truncation point and a read error at every position (offset 0 included) of the later input, also as third of three inputs, " +
 			"with the monitor also flagging any Read on a later input while output of the earlier inputs is outstanding; THE BINARY BEHIND A PIPE: 6 programs (newline-terminated output, printf without a newline, mixtures, 3000-byte fields) x 3 streams, each value written with one following byte and the next one held back until the value's output has arrived (generous 45 s limit, normal latency < 1 ms); LARGE VALUES: one value of 18 sizes around 512 B ... 300 kB (buffer thresholds) after 0 / 3 and before 1 / 5 / 64 / 5000 small records, delivered in 16 fixed Read sizes; oracle: an independent RFC 8259 stream scanner splits the bytes into complete values + clean/error/truncated, the model gives the output of the complete values, " +
@@ -986,6 +1018,7 @@ func init() {
 					}
 				}
 				c.State("the binary behind a pausing pipe")
+				c.Do(func() any { return c03Pipe{Form: "procfile"} }, func() *fw.Violation { return c03ProcFile(c) })
 				for i, fx := range c03Fixed {
 					fx, i := fx, i
 					ex := c03Model(0, fx.first)
@@ -1038,6 +1071,9 @@ func init() {
 			}
 			if !unmarshal(raw, &probe) {
 				return nil
+			}
+			if probe.Form == "procfile" {
+				return c03ProcFile(c)
 			}
 			if probe.Form == "pipe" {
 				var ps c03Pipe
